@@ -131,26 +131,88 @@ def parse_tapes(text):
     return out
 
 
-def kani_cmd(engine, harness, target_dir, playback=False, extra_cbmc=()):
+def kani_cmd(engine, harness, target_dir, playback=False, extra_cbmc=(), only_codegen=False):
     cwd, eng_args = ENGINES[engine]
     cmd = ["cargo", "kani", "--harness", harness, "--exact", "--target-dir", target_dir] + eng_args + COMMON
+    if only_codegen:
+        return cmd + ["--only-codegen"], cwd
     if playback:
         cmd += ["-Z", "concrete-playback", "--concrete-playback=print"]
     cmd += CBMC_ARGS + list(extra_cbmc)
     return cmd, cwd
 
 
-def run_harness(engine, harness, slot, timeout, mem_gb=24, playback=False, extra_cbmc=()):
+# Per-loop unwinding bounds (CBMC --unwindset), matched by regex on the demangled
+# function name that `goto-instrument --show-loops` prints. Loop ids are looked up
+# in the freshly generated goto binary on every run, so they follow /repo's source.
+# A bound that is too small fails its unwinding assertion => INCONCLUSIVE, never PASS.
+DEFAULT_UNWINDSET = {
+    "incrate": [
+        (r"bytes::BufMut>::put_slice", 3),
+        (r"::choose_and_send::", 4),
+        (r"::announce_to_down::", 4),
+        (r"::broadcast::<", 4),
+        (r"Foca::<.*>::handle_timer::", 4),
+        (r"verif_stub_fill", 4),
+    ],
+}
+
+LOOP_RE = re.compile(r"^Loop (\S+):\n\s+file .*? function (.*)$", re.M)
+
+
+def find_goto_binary(target_dir, harness):
+    short = harness.split("::")[-1]
+    suffix = "%d%s.out" % (len(short), short)
+    best, best_m = None, -1
+    for root, _d, files in os.walk(os.path.join(target_dir, "kani")):
+        for fn in files:
+            if fn.endswith(suffix) and not fn.endswith(".symtab.out"):
+                p = os.path.join(root, fn)
+                m = os.path.getmtime(p)
+                if m > best_m:
+                    best, best_m = p, m
+    return best
+
+
+def compute_unwindset(engine, harness, target_dir, rules, timeout, log_path):
+    """-> (unwindset string or None, note)."""
+    if not rules:
+        return None, ""
+    cmd, cwd = kani_cmd(engine, harness, target_dir, only_codegen=True)
+    rc, timed_out, _ = run_proc(cmd, cwd, timeout, None, log_path + ".codegen")
+    if rc != 0:
+        return None, "codegen failed"
+    gb = find_goto_binary(target_dir, harness)
+    if not gb:
+        return None, "goto binary not found"
+    p = subprocess.run(["goto-instrument", "--show-loops", gb], stdout=subprocess.PIPE, stderr=subprocess.DEVNULL, text=True)
+    items = []
+    for loop_id, func in LOOP_RE.findall(p.stdout):
+        for rx, bound in rules:
+            if re.search(rx, func):
+                items.append("%s:%d" % (loop_id, bound))
+                break
+    return (",".join(items) if items else None), "%d loops bounded" % len(items)
+
+
+def run_harness(engine, harness, slot, timeout, mem_gb=24, playback=False, extra_cbmc=(), unwindset=()):
     os.makedirs(os.path.join(WORK, "logs"), exist_ok=True)
     target_dir = os.path.join(WORK, "kt-%s-%d" % (engine, slot))
     log_path = os.path.join(WORK, "logs", "%s%s.log" % (harness, ".playback" if playback else ""))
-    cmd, cwd = kani_cmd(engine, harness, target_dir, playback, extra_cbmc)
+    t_start = time.time()
+    rules = list(DEFAULT_UNWINDSET.get(engine, [])) + list(unwindset)
+    uw, uw_note = compute_unwindset(engine, harness, target_dir, rules, 900, log_path)
+    extra = list(extra_cbmc)
+    if uw:
+        extra += ["--unwindset", uw]
+    cmd, cwd = kani_cmd(engine, harness, target_dir, playback, extra)
     rc, timed_out, wall = run_proc(cmd, cwd, timeout, mem_gb, log_path)
+    wall = time.time() - t_start
     text = open(log_path, errors="replace").read()
     checks, stats, verdict = parse_log(text)
     status, detail = classify(checks, verdict, timed_out, rc, text)
     res = {"harness": harness, "engine": engine, "status": status, "detail": detail, "wall_s": round(wall, 2),
-           "checks": checks, "stats": stats, "log": log_path, "cmd": " ".join(cmd), "rc": rc}
+           "checks": checks, "stats": stats, "log": log_path, "cmd": " ".join(cmd), "rc": rc, "unwindset_rules": ["%s:%d" % r for r in rules]}
     if playback:
         res["tapes"] = parse_tapes(text)
     return res
